@@ -873,6 +873,14 @@ func (s *State) evalExpressions(exps []ast.Node, keepRef func(i int) bool) ([]ob
 	result := object.MakeObjectSlice(len(exps)) // not that this one can ever be huge but, for consistency.
 	for i, e := range exps {
 		evaluated := s.evalInternal(e)
+		// like operands: a return value is unwrapped, break/continue are errors, never an element.
+		if rv, ok := evaluated.(object.ReturnValue); ok {
+			if rv.ControlType != token.RETURN {
+				oerr := s.Errorf("unexpected control type %v outside of for loops", rv.ControlType)
+				return nil, &oerr
+			}
+			evaluated = rv.Value
+		}
 		if rt := evaluated.Type(); rt == object.ERROR {
 			oerr := evaluated.(object.Error)
 			return nil, &oerr
